@@ -123,41 +123,60 @@ CLAIMED = {
 # rules added after the first version of the texts above (appended to the text
 # and to the technique of the property)
 ADDENDA = {
- "C11": (" UNIQ-COPY is a path rule for where the sorted keys are when uniq reads them.",
-         ""),
- "C19": (" sum() over literal collections (a set literal loses equal elements), stores through self.__dict__ and the class's own methods called unbound are followed.",
-         ""),
- "C18": (" CHECK-TABLES: the dispatch tables of check.py are evaluated from their module-level loops and compared with the specification for every family and both implementations. CHECK-TRANSPARENT: no de-duplicating / re-ordering operation on state data in check.py. An assertion switched off by a guard that looks at the asserted value itself counts as weakened.",
-         "; partial evaluation of module-level table construction"),
- "C05": (" PER_PREVENT_DEACTIVATION does not make a possible ghost readable. PY-STALE-ALIAS: the Python nodes never write through a local copy of a state list taken before a call that can run a key comparison (a cache sweep there reloads the node with new lists).",
-         "; Python alias staleness walk over comparing calls"),
- "C01": (" FIRSTBUCKET-INV: a node's firstbucket is computed from the node's own contents (helper parameters decided at the call sites). SEP-REFRESH: decision table of the separator-refresh guard over (child index, entries left), C = Python. PY-DEL-TAIL: decision table over (child lost its first leaf, child 0, child empty, child is a leaf) of what _Tree._del does behind the child's delete - unlink calls, _firstbucket, removal of the child, flag returned.",
-         "; root/provenance analysis of firstbucket stores; decision tables of the delete tail"),
- "C02": (" ENDS-CROSS: decision table of the emptiness tests BTree_rangeSearch runs once both end positions are known (min given, excludemin, max given, excludemax, same leaf): crossed ends in different leaves are detected by an end-key comparison whenever both ends were moved inward. ERR-IGNORED: a local holding the result of a repository function that reports failure by a negative constant is only compared with constants, returned or copied until a branch edge has excluded the negative values. MINMAX-TABLE: minKey(b)/maxKey(b) of the Python leaves and tree nodes and of C BTree_maxminKey/Bucket_maxminKey are walked by abstract interpreters over position atoms (bound before / on / on the last / between / behind the keys of the leaf it sorts into, successor present, child index 0, child's smallest key above the bound; C: empty, bound given, min/max, result of the endpoint search) and compared with the specification. FINDEND-TABLE: C BTree_findRangeEnd, descent included, over node roles for 72 valuations (levels, child index 0 or not per level, leaf search result, low/high, successor). RANGE-WIRING: with both bounds given BTree_rangeSearch searches (min, low=1, excludemin) and (max, low=0, excludemax) and builds the sequence from (LOW, LOW offset, HIGH, HIGH offset). ITER-CONTINUE is computed for five forms of the range arguments.",
-         "; decision table of the emptiness tests; error-value typestate of call results; abstract interpretation of minKey/maxKey, the tree-level endpoint search and the range wiring over role / position atoms"),
- "C03": (" SPLIT-COMMIT: after bucket_split/BTree_split succeeded no return is reachable in the caller before the sibling is stored as a child and len is increased; the split functions have no failure exit after their first store into the split node or the sibling's len. FIRSTBUCKET-INV, PY-DEL-TAIL as in C01; UNLINK-STATUS additionally requires status 2 to be returned only with the child index tested zero.",
+ "C02": (" ENDS-CROSS: decision table of the emptiness tests BTree_rangeSearch runs once both end positions are known (min given, excludemin, max given, excludemax, same leaf): crossed ends in different leaves are detected by an end-key comparison whenever both ends were moved inward. ERR-IGNORED: a local holding the result of a repository function that reports failure by a negative constant is only compared with constants, returned or copied until a branch edge has excluded the negative values.",
+         "; decision table of the emptiness tests; error-value typestate of call results"),
+ "C03": (" SPLIT-COMMIT: after bucket_split/BTree_split succeeded no return is reachable in the caller before the sibling is stored as a child and len is increased; the split functions have no failure exit after their first store into the split node or the sibling's len.",
          "; path rule between split success and child store"),
  "C04": (" A new helper that leaves its node parameter unregistered is followed down chains of such helpers and reported at the innermost one when some caller does not register (void helpers included: falling off the end of a body is a return).", ""),
- "C06": (" The class swap is decided on facts keyed on attribute names (_BTree_reduce_as set unconditionally for the four kinds; __name__ and __qualname__ renamed together; __reduce__ returns the class taken from the __class__ property, which returns _BTree_reduce_as). The layout facts of the five C codecs and six Python codecs come from role-stream abstract interpreters (loops peeled and run generically with solved induction variables, helpers inlined): which node slot each tuple slot carries and vice versa, as slot families over the iteration index, compared exactly with one specification table. SAME-VALUE: the equal-value shortcut that skips store and registration is for native values only (C: no (in)equality test of an object value slot in a storing function; Python: the comparison is conjoined with a class attribute that is False for object values), followed through single-definition locals. SAME-VALUE and SEP-REFRESH as necessary conditions of equal states in C and Python; the class of a freshly built embedded leaf comes from self._bucket_type; PY-CLASS-IDENTITY: self.__class__ (a property that names the pickle replacement class) is never an operand of a type test or a constructor in _base.py.",
-         "; abstract interpretation of the codecs into slot families; guard analysis of the equal-value shortcut; syntactic who-may-use rule for the __class__ property"),
+ "C06": (" The class swap is decided on facts keyed on attribute names (_BTree_reduce_as set unconditionally for the four kinds; __name__ and __qualname__ renamed together; __reduce__ returns the class taken from the __class__ property, which returns _BTree_reduce_as). The layout facts of the five C codecs and six Python codecs come from role-stream abstract interpreters (loops peeled and run generically with solved induction variables, helpers inlined): which node slot each tuple slot carries and vice versa, as slot families over the iteration index, compared exactly with one specification table.",
+         "; abstract interpretation of the codecs into slot families"),
  "C08": (" A function whose whole body is the jar/oid/serial-guarded readCurrent of its parameter counts as the registration when called on self before the descent, and may be called from writing methods only.", ""),
  "C07": (" The Python merge is interpreted by a small interpreter with frames, function values (local, module-level and passed-in helpers), loops over literal tuples and list sinks; the successor-carried clause also rejects any state loader / clear / rebinding of the result after the link was carried.", ""),
- "C09": (" SLOT-SIG: every function cast into a type-object slot returns the class of value (void / pointer / integer width) the slot's function-pointer type promises - a narrower integer makes the error return unrecognisable (SystemError in place of the function's exception, where the Python class raises the original one). PY-TAINT also requires the absence handler of a read to enclose the conversion only. EXC-LEAK: no C function returns a non-error value (constant, further call, counter) on a path where a failing API or activation has certainly left an exception set - the Python class raises the original exception where C would raise SystemError. PY-TAINT also forbids a modifying method to decide presence of the raw key through a read entry point.",
+ "C09": (" SLOT-SIG: every function cast into a type-object slot returns the class of value (void / pointer / integer width) the slot's function-pointer type promises - a narrower integer makes the error return unrecognisable (SystemError in place of the function's exception, where the Python class raises the original one). PY-TAINT also requires the absence handler of a read to enclose the conversion only. EXC-LEAK: no C function returns a non-error value (constant, further call, counter) on a path where a failing API or activation has certainly left an exception set - the Python class raises the original exception where C would raise SystemError.",
          "; prototype agreement of slot functions; exception-state dataflow with value-set refinement"),
- "C10": (" INPLACE-MONOTONE: no loop of an in-place operator both adds to and removes from the container (per-occurrence toggling; C x22 and Python). INPLACE-OPERAND: the Python in-place operators consume their operand exactly once and never through a membership test. INPLACE-REPLACE: the rebuild step of C &= dominates every success result. ALIAS-GUARD is required only where a loop over the operand modifies self in the same pass. ERR-SWALLOW: every PyErr_Clear() is dominated by a test of the exception's class, or replaced by another exception on every path, or an accepted protocol idiom - a cursor that clears unguarded truncates the result silently. ITER-EXHAUST: a success return after PyIter_Next produced an element is reachable only through the iterator's exhaustion. REAL-TYPE: no PyObject_IsInstance against the unit's own type objects in front of a struct cast (it asks __class__, which the pure-Python classes override to name the C class).",
-         "; loop-effect and dominator rules for the in-place operators; dominator rule for exception clears; typestate of PyIter_Next loops; who-may-call rule for PyObject_IsInstance"),
+ "C10": (" INPLACE-MONOTONE: no loop of an in-place operator both adds to and removes from the container (per-occurrence toggling; C x22 and Python). INPLACE-OPERAND: the Python in-place operators consume their operand exactly once and never through a membership test. INPLACE-REPLACE: the rebuild step of C &= dominates every success result. ALIAS-GUARD is required only where a loop over the operand modifies self in the same pass. ERR-SWALLOW: every PyErr_Clear() is dominated by a test of the exception's class, or replaced by another exception on every path, or an accepted protocol idiom - a cursor that clears unguarded truncates the result silently.",
+         "; loop-effect and dominator rules for the in-place operators; dominator rule for exception clears"),
  "C13": (" *AndOverflow converters are modelled by their out-parameter (both signs of the indicator must be excluded, or the negative one by a `result < 0` rejection); the 64-bit helpers are interpreted per argument class including single-digit (compact) ints; conversions factored into functions are followed (stores through an out-parameter; functions returning a converter result with a success flag).", ""),
- "C14": (" CLEAR-THEN-FILL: no operation empties its own container and then rebuilds it through calls from which a key comparison is reachable (object-key units; known finding: C &=). PY-CMP-SWALLOW: no Python try whose handler answers or raises another class encloses a call into the comparing layer. KEY-CHECK-DOM: in the object-key units every store of the key argument is dominated by the comparability check.",
-         "; call-graph reach after a clearing call; Python handler-scope rule; dominator rule for the key check"),
+ "C14": (" CLEAR-THEN-FILL: no operation empties its own container and then rebuilds it through calls from which a key comparison is reachable (object-key units; known finding: C &=). PY-CMP-SWALLOW: no Python try whose handler answers or raises another class encloses a call into the comparing layer.",
+         "; call-graph reach after a clearing call; Python handler-scope rule"),
  "C15": (" BTreeItems_seek itself is checked to commit a finger position only after testing 0 <= offset < len against the current len of that very bucket, the failing side unable to reach the commit.", ""),
- "C16": (" RELEASE-ATTACHED: a key/value/separator/child/successor slot of a node is never released in place, and a reference loaded from such a slot is released only after the slot was overwritten, shifted over or cut off by a length store (releasing runs arbitrary code: finalizers, weakref callbacks). SETITEM-FRESH: the unchecked *_SET_ITEM macros are applied only to containers created empty on that path (reaching definitions). SPLIT-COMMIT: a split function has no failure exit once the sibling's len is set. NULL-RESULT: the result of every repository function that has a `return NULL` path (inferred set) is tested before it is dereferenced or passed to a NULL-intolerant API, on every path. An object release between the bounds test and the use spoils the test. LEN-NONNEG: a length slot returns an error constant or a provably non-negative value. PY-LIST-IDENTITY: the Python leaves rebind _keys/_values only in whole-state operations (parked iterators capture the lists). PY-CURSOR-EXC: every next() of the Python lazy sequences sits under a StopIteration handler. An owned reference is not released twice by explicit DECREFs. SHIFT-BOUNDS: in-place memmove shifts of node arrays read only entries the node held (affine bounds against len with the decrements executed before). REAL-TYPE as in C10. USE-AFTER-RELEASE: a local that only borrows a container field's reference is not used after that reference was released (no own INCREF on the path). The two accepted idioms of RELEASE-ATTACHED in _BTree_set were wrong and removed (code repaired).",
-         "; slot detach-before-release typestate; reaching-definitions rule for SET_ITEM; may-return-NULL inference + unchecked-result dataflow; sign analysis of length returns; rebinding and handler-scope rules for the Python sequences; affine bound analysis of memmove shifts; borrowed-reference typestate"),
+ "C16": (" RELEASE-ATTACHED: a key/value/separator/child/successor slot of a node is never released in place, and a reference loaded from such a slot is released only after the slot was overwritten, shifted over or cut off by a length store (releasing runs arbitrary code: finalizers, weakref callbacks). SETITEM-FRESH: the unchecked *_SET_ITEM macros are applied only to containers created empty on that path (reaching definitions). SPLIT-COMMIT: a split function has no failure exit once the sibling's len is set. NULL-RESULT: the result of every repository function that has a `return NULL` path (inferred set) is tested before it is dereferenced or passed to a NULL-intolerant API, on every path.",
+         "; slot detach-before-release typestate; reaching-definitions rule for SET_ITEM; may-return-NULL inference + unchecked-result dataflow"),
  "C17": (" EXC-PENDING: no success return with the wrapper's MemoryError pending. CLEAR-THEN-FILL (allocation flavour): no operation empties its own container and then rebuilds it through allocating calls (known finding: C &=). SPLIT-COMMIT as in C03. FREE-DISC understands the detach-then-free idiom and store-back aliases.",
          "; call-graph reach after a clearing call; split commit rule"),
 }
 
 NA_PENDING = "check not built yet (engine under construction); see DESIGN.md section 11"
 NA = {}
+
+
+# rules added in the third and fourth seeding rounds (appended after ADDENDA)
+ADDENDA2 = {
+ "C01": (" FIRSTBUCKET-INV: a node's firstbucket is computed from the node's own contents (helper parameters decided at the call sites). SEP-REFRESH: decision table of the separator-refresh guard over (child index, entries left), C = Python. PY-DEL-TAIL: decision table over (child lost its first leaf, child 0, child empty, child is a leaf) of what _Tree._del does behind the child's delete - unlink calls, _firstbucket, removal of the child, flag returned.",
+         "; root/provenance analysis of firstbucket stores; decision tables of the delete tail"),
+ "C02": (" MINMAX-TABLE: minKey(b)/maxKey(b) of the Python leaves and tree nodes and of C BTree_maxminKey/Bucket_maxminKey are walked by abstract interpreters over position atoms (bound before / on / on the last / between / behind the keys of the leaf it sorts into, successor present, child index 0, child's smallest key above the bound; C: empty, bound given, min/max, result of the endpoint search) and compared with the specification. FINDEND-TABLE: C BTree_findRangeEnd, descent included, over node roles for 72 valuations (levels, child index 0 or not per level, leaf search result, low/high, successor). RANGE-WIRING: with both bounds given BTree_rangeSearch searches (min, low=1, excludemin) and (max, low=0, excludemax) and builds the sequence from (LOW, LOW offset, HIGH, HIGH offset). ITER-CONTINUE is computed for five forms of the range arguments.",
+         "; abstract interpretation of minKey/maxKey, the tree-level endpoint search and the range wiring over role / position atoms"),
+ "C03": (" FIRSTBUCKET-INV and PY-DEL-TAIL as in C01; UNLINK-STATUS additionally requires status 2 to be returned only with the child index tested zero.", ""),
+ "C04": (" SAME-VALUE: the equal-value shortcut that skips store and registration is for native values only (C: no (in)equality test of an object value slot in a storing function; Python: the comparison is conjoined with a class attribute that is False for object values), followed through single-definition locals.",
+         "; guard analysis of the equal-value shortcut"),
+ "C05": (" PER_PREVENT_DEACTIVATION does not make a possible ghost readable. PY-STALE-ALIAS: the Python nodes never write through a local copy of a state list taken before a call that can run a key comparison (a cache sweep there reloads the node with new lists).",
+         "; Python alias staleness walk over comparing calls"),
+ "C06": (" SAME-VALUE and SEP-REFRESH as necessary conditions of equal states in C and Python; the class of a freshly built embedded leaf comes from self._bucket_type; PY-CLASS-IDENTITY: self.__class__ (a property that names the pickle replacement class) is never an operand of a type test or a constructor in _base.py.",
+         "; who-may-use rule for the __class__ property"),
+ "C09": (" PY-TAINT also forbids a modifying method to decide presence of the raw key through a read entry point; a success-flag out-parameter is an accepted way of reporting a failed conversion (EXC-LEAK).", ""),
+ "C10": (" ITER-EXHAUST: a success return after PyIter_Next produced an element is reachable only through the iterator's exhaustion. REAL-TYPE: no PyObject_IsInstance against the unit's own type objects in front of a struct cast (it asks __class__, which the pure-Python classes override to name the C class). ERR-SWALLOW decides 'guarded' as unreachability once the success edges of the class tests are removed.",
+         "; typestate of PyIter_Next loops; who-may-call rule for PyObject_IsInstance"),
+ "C11": (" UNIQ-COPY is a path rule for where the sorted keys are when uniq reads them.", ""),
+ "C13": (" KEY-CHECK-DOM: in the object-key units every store of the key argument is dominated by the comparability check.",
+         "; dominator rule for the key check"),
+ "C15": (" An object release between the bounds test and the use spoils the test. LEN-NONNEG: a length slot returns an error constant or a provably non-negative value. PY-LIST-IDENTITY: the Python leaves rebind _keys/_values only in whole-state operations (parked iterators capture the lists). PY-CURSOR-EXC: every next() of the Python lazy sequences sits under a StopIteration handler.",
+         "; sign analysis of length returns; rebinding and handler-scope rules for the Python sequences"),
+ "C16": (" An owned reference is not released twice by explicit DECREFs. SHIFT-BOUNDS: in-place memmove shifts of node arrays read only entries the node held (affine bounds against len with the decrements executed before). REAL-TYPE as in C10. USE-AFTER-RELEASE: a local that only borrows a container field's reference is not used after that reference was released (no own INCREF on the path). The two accepted idioms of RELEASE-ATTACHED in _BTree_set were wrong and were removed (code repaired).",
+         "; affine bound analysis of memmove shifts; borrowed-reference typestate"),
+ "C18": (" CHECK-TABLES: the dispatch tables of check.py are evaluated from their module-level loops and compared with the specification for every family and both implementations. CHECK-TRANSPARENT: no de-duplicating / re-ordering operation on state data in check.py. An assertion switched off by a guard that looks at the asserted value itself counts as weakened.",
+         "; partial evaluation of module-level table construction"),
+ "C19": (" sum() over literal collections (a set literal loses equal elements), stores through self.__dict__ and the class's own methods called unbound are followed.", ""),
+}
 
 def main():
     props = [json.loads(l)["id"] for l in open(os.path.join(HERE, "properties.jsonl"))]
@@ -168,6 +187,9 @@ def main():
             if pid in ADDENDA:
                 c["text"] = c["text"] + ADDENDA[pid][0]
                 c["technique"] = c["technique"] + ADDENDA[pid][1]
+            if pid in ADDENDA2:
+                c["text"] = c["text"] + ADDENDA2[pid][0]
+                c["technique"] = c["technique"] + ADDENDA2[pid][1]
             checks.append({
                 "property_id": pid,
                 "quick_cmd": "./check %s --tier quick" % pid,
